@@ -19,6 +19,7 @@ EXPLANATION = (
     "row-independent. C11.3: retH = fftshift of sosfreqz(sos, worN=signal.size, fs=fs, whole=True)[1]. C11.4: results are built on a "
     "copy (input[:]); an ndarray given to LPF is wrapped and treated as noise-free. "
     "Trusted: scipy's documented semantics of bessel(norm='mag')/sosfiltfilt. Not decided: the numbers (6.0 dB, monotonic roll-off).")
+EXPLANATION += (" Added after the audit wave: C11.2 the edge padding handed to sosfiltfilt is capped by the input length (scipy's default 3*(2*sections+1) exceeds the 16-sample bound of the statement for orders 5..8), and LPF promotes integer samples to a floating type before filtering (the odd edge extension wraps in uint8).")
 TRUSTED = ["scipy.signal.bessel(norm='mag') has unit DC gain and -3 dB at Wn", "scipy.signal.sosfiltfilt is linear, zero-phase, squares the magnitude", "scipy.signal.sosfreqz"]
 
 BESSEL_SIG = ["N", "Wn", "btype", "analog", "output", "norm", "fs"]
@@ -99,6 +100,29 @@ def check_apply(ctx, fi, it, case, out, node, sos, sig_in, noise_in, real_part):
             continue
         args, kw = a[2], dict(a[3])
         probs = []
+        # the samples handed to the filter may be promoted to a floating type first (integer samples - the uint8 slots of a bit
+        # sequence - would wrap in the filter's odd edge extension): result_type(x, float) holds every value of x
+        xa = args[1].single_atom() if len(args) > 1 and isinstance(args[1], Form) else None
+        if xa and xa[0] == "fn" and xa[1] == "astype" and len(xa[2]) >= 2 and any(k in repr(xa[2][1]) for k in ("result_type(", "class 'float'", "class float", "float64", "complex128", "longdouble")) \
+                and not any(k in repr(xa[2][1]) for k in ("int", "uint", "bool", "float32", "float16")):
+            args = (args[0], xa[2][0]) + tuple(args[2:])
+            promoted = True
+        else:
+            promoted = False
+        if fi.name == "LPF":
+            # LPF takes plain arrays of any real dtype (the uint8 slots of a binary_sequence, integer sample counts): scipy filters them in
+            # their own dtype and the odd edge extension 2*x[0] - x[k] wraps for unsigned / narrow integers - linearity fails at the edges
+            ctx.check("C11.2", promoted, fi, node, f"{fi.name} [{case}] {fld}: samples promoted to a floating type before filtering", "astype(result_type(x, float))",
+                      "integer-typed samples are filtered in their own dtype: the filter's edge extension 2*x[0]-x[k] wraps (uint8 0/1 waveform: first samples off by up to 0.3), "
+                      "F(1.0*x) differs from 1.0*F(x)")
+        # edge padding: scipy's default 3*(2*sections+1) grows with the order (27 samples for n = 8) - the statement covers every input
+        # longer than 16 samples for orders 1..8, so the padding has to be limited to what the record can give (len - 1)
+        pl = kw.get("padlen")
+        pla = pl.single_atom() if isinstance(pl, Form) else None
+        ok_pad = bool(pla and pla[0] == "fn" and pla[1] in ("min", "minimum") and any(isinstance(x_, Form) and any(at[0] == "fn" and at[1] in ("siglen", "size", "len") or (at[0] == "sym" and at[1].endswith((".size", ".shape"))) or (at[0] == "attr" and at[2] in ("size", "shape")) for at in x_.atoms()) for x_ in pla[2]))
+        ctx.check("C11.2", ok_pad, fi, node, f"{fi.name} [{case}] {fld}: edge padding padlen={pl!r}"[:200], "min(default, record length - 1)",
+                  "sosfiltfilt runs with its default edge padding 3*(2*sections+1): 18..27 samples for orders 5..8, so inputs of 17..27 samples - longer than the 16-sample padding the statement "
+                  "speaks of - are rejected with ValueError instead of being filtered")
         if vkey(args[0]) != vkey(sos):
             probs.append("a different sos object than the designed prototype is applied")
         if not (isinstance(args[1], Form) and args[1] == xin):
